@@ -16,8 +16,11 @@
    The keyed views (C01_keyed_...): Set / Map (sorted lists) and UnsizedMap (sorted offset table) insert and remove through the
    binary search refine the sorted-association-list model and keep the keys strictly ascending.  Whole-value replacement
    (set_from_owned, C01_set_data_refines) for every sub-value whose chain of first fields ends in a non-struct.
-   NOT covered by a theorem: UnsizedMap insert on an EXISTING key (replacement of the element through set_from_init),
-   UnsizedString, non-default initialisers, failing initialisers (D16), enums (correspondence only).
+   UnsizedMap insert on an EXISTING key replaces the element by the default value through get_exclusive + set_from_init
+   (C01_keyed_unsized_map_overwrite).
+   NOT covered by a theorem: UnsizedString, non-default initialisers, failing initialisers (D16), enums - generated enums
+   (variant switches, operations inside the live variant, lists of enums, enums in tail position) are in the operations
+   harness and the model since the second round (op codes 1 / 60 at an enum) but correspondence only.
    Also (named ..._flat, the earlier special case): the full refinement for FLAT shapes - generated structs whose fields are
    fixed-size values, lists of any element type and prefix width, and a trailing RemainingBytes - under
    histories of insert_all / remove_range (push, insert, pop, remove, clear are instances) with interleaving
@@ -30,7 +33,7 @@ From SF Require Import Unsized.Proofs.Layout Unsized.Proofs.Observe Unsized.Proo
   Unsized.Proofs.NotifyInside Unsized.Proofs.Resize Unsized.Proofs.GenOps Unsized.Proofs.History.
 From SF Require Import Unsized.Run Unsized.Proofs.Init Unsized.Proofs.History2 Unsized.Proofs.ExecTie.
 From SF Require Import Unsized.Proofs.ExecTie2 Unsized.Proofs.Keyed Unsized.Proofs.NotifyInside2 Unsized.Proofs.SetData.
-From SF Require Import Unsized.Proofs.History3.
+From SF Require Import Unsized.Proofs.History3 Unsized.Proofs.History4.
 
 (* one operation: same success, and the new machine state represents the owned model's new value *)
 Theorem C01_flat_step_refines :
@@ -292,6 +295,22 @@ Theorem C01_keyed_unsized_map_remove :
       RepF (pi ++ [SF 0]) t (plug t v (pi ++ [SF 0]) (VUList items')) s' top' /\
       m_cap s' = m_cap s /\ m_refuse s' = m_refuse s /\ strictly_ascending (ukeys items') = true.
 Proof. exact umap_remove_present. Qed.
+
+Theorem C01_keyed_unsized_map_overwrite :
+  forall ovf pi t v it k items key s top idx,
+    resolve t v (pi ++ [SF 0]) = Some (TUList it k, VUList items) -> k <> 0%nat ->
+    RepF (pi ++ [SF 0]) t v s top -> zero_ok it = true -> headed it = true ->
+    lower_bound (ukeys items) key 0 = (idx, true) -> m_refuse s <> 1 ->
+    (forall kv, nth_error items (Z.to_nat idx) = Some kv ->
+       0 < zlen (encode it (snd kv)) /\ m_len s + (zlen (encode it (dflt it)) - zlen (encode it (snd kv))) <= m_cap s) ->
+    exists kv s' top',
+      nth_error items (Z.to_nat idx) = Some kv /\
+      (let items' := firstn (Z.to_nat idx) items ++ (fst kv, dflt it) :: skipn (S (Z.to_nat idx)) items in
+       umap_insert_op ovf t s top (mpath pi) it k key 0 = Ok (s', top', [0]) /\
+       RepF (pi ++ [SF 0; SE (Z.to_nat idx)]) t (plug t v (pi ++ [SF 0]) (VUList items')) s' top' /\
+       m_cap s' = m_cap s /\ m_refuse s' = m_refuse s /\ ukeys items' = ukeys items /\
+       strictly_ascending (ukeys items') = true).
+Proof. exact umap_insert_present_items. Qed.
 
 (* ONE history theorem for everything above: List / trailing-bytes / list-of-unsized-elements operations, whole-value
    replacement, and the keyed views (Set / Map / UnsizedMap with binary search), at any nesting depth, in any order;
